@@ -4,7 +4,7 @@ live) about effects it observed dynamically on the real code.
   {"op":"facts"}                                        -> disciplines of Gen.summary evaluated, and counts
   {"op":"state_change","file":f,"owner":o,"name":n}     -> {"listed":b,"benign":b,"escape_only":b}   (owner "<module>" or class / "Cls<instance>")
   {"op":"set_site","file":f,"func":g,"expr":e}          -> {"known":"sensitive"|"insensitive"|"unknown"}
-  {"op":"env_read","file":f,"func":g,"kind":k}          -> {"listed":b,"allowed":b,"known_finding":b}
+  {"op":"env_read","file":f,"func":g,"kind":k}          -> {"listed":b,"allowed":b}
 -/
 import Lean.Data.Json
 import Octave.Model.Effects
@@ -21,7 +21,6 @@ def handle (j : Json) : Json :=
     Json.mkObj [
       ("frame", toJson (decide (Frame Gen.summary))),
       ("noenv", toJson (decide (NoEnv Gen.summary))),
-      ("noenv_partial", toJson (decide (NoEnvPartial Gen.summary))),
       ("ordered", toJson (decide (Ordered Gen.summary))),
       ("noawait", toJson (decide (NoAwait Gen.summary))),
       ("pkg_first", toJson (decide (PkgFirst Gen.summary))),
@@ -36,7 +35,8 @@ def handle (j : Json) : Json :=
       ("async_sites", toJson Gen.asyncSites.length),
       ("write_targets", toJson (writeTargets Gen.summary)),
       ("env_not_allowed", toJson ((Gen.envReads.filter (fun r => !allowedEnv r)).map (fun r => s!"{r.file}:{r.func}:{r.kind}"))),
-      ("search_order", toJson Gen.searchOrder)]
+      ("search_order", toJson Gen.searchOrder),
+      ("gen_hash", toJson Gen.genHash)]
   | .ok "state_change" =>
     let (f, o, n) := (str "file", str "owner", str "name")
     let ws := Gen.stateWrites.filter (fun w => targetMatches f o n w.target)
@@ -52,8 +52,7 @@ def handle (j : Json) : Json :=
   | .ok "env_read" =>
     let (f, g, k) := (str "file", str "func", str "kind")
     let rs := Gen.envReads.filter (fun r => r.file == f && r.func == g && r.kind == k)
-    Json.mkObj [("listed", toJson (!rs.isEmpty)), ("allowed", toJson (rs.all allowedEnv)),
-                ("known_finding", toJson (rs.any knownFindingEnv))]
+    Json.mkObj [("listed", toJson (!rs.isEmpty)), ("allowed", toJson (rs.all allowedEnv))]
   | _ => Json.mkObj [("unsupported", "op")]
 
 partial def loop (h : IO.FS.Stream) (out : IO.FS.Stream) : IO Unit := do
